@@ -696,9 +696,13 @@ def comp_names(world, c):
     return names
 
 
-def box_orders(npert):
-    b = BOX[npert]
-    return [n for n in itertools.product(range(b + 1), repeat=npert)]
+def world_box(world):
+    return world.get("box", BOX[world["npert"]])
+
+
+def box_orders(world):
+    b = world_box(world)
+    return [n for n in itertools.product(range(b + 1), repeat=world["npert"])]
 
 
 def world_cap(world):
@@ -716,7 +720,7 @@ def all_keys(world, used=None):
                 continue
             for i in range(nb):
                 for j in range(nb):
-                    for n in box_orders(world["npert"]):
+                    for n in box_orders(world):
                         if sum(n) <= cap:
                             keys.append((c, s, i, j, n))
     keys.sort(key=lambda k: (sum(k[4]), k[4], k[0], k[1], k[2], k[3]))
@@ -819,7 +823,7 @@ class GraphProp:
         env = Env(faults=case.get("faults", ()), poison=case.get("poison"))
         sim = Sim(world, env)
         nb, npert = len(world["sizes"]), world["npert"]
-        box = BOX[npert]
+        box = world_box(world)
         counters = {}
         stats = {}
         states = []
@@ -1405,12 +1409,16 @@ class GraphProp:
                 spec["kpm"] = bool(spec["herm"] and herm and r.random() < 0.3)
                 if spec["kpm"]:
                     spec["fd"] = None if isinstance(spec["fd"], dict) else spec["fd"]
+        if tier == "thorough" and domain in ("dense", "sparse") and fmt != "implicit" and r.random() < 0.25:
+            # deeper bounds: one more order per axis than the quick tier (and the table follows)
+            w["box"] = {1: 6, 2: 3, 3: 2}[npert]
+            w["cap"] = {1: 6, 2: 4, 3: 3}[npert]
         w["comps"] = comps
         return w
 
     def gen_ops(self, r, world, tier, profile, cone=None):
         nb, npert = len(world["sizes"]), world["npert"]
-        box = BOX[npert]
+        box = world_box(world)
         ncomp = len(world["comps"])
         cap = world_cap(world)
         orders = [n for n in itertools.product(range(box + 1), repeat=npert) if sum(n) <= cap]
